@@ -17,9 +17,9 @@ from . import c12_model as M
 PID = 'C12'
 
 TIERS = {
-    'quick': {'ter_files': 4, 'f14_exh': 5, 'f14': 24, 'f15': 30, 'big_thin': 4, 'files': 24, 'multiconf': 6, 'f3': 80, 'f5': 40, 'f6': 'all', 'f9': 40, 'f10': 80, 'f11': 'all', 'opt_every': 3,
+    'quick': {'multiconf_rich': 1, 'f17': 250, 'ter_files': 4, 'f14_exh': 5, 'f14': 24, 'f15': 30, 'big_thin': 4, 'files': 24, 'multiconf': 6, 'f3': 80, 'f5': 40, 'f6': 'all', 'f9': 40, 'f10': 80, 'f11': 'all', 'opt_every': 3,
               'chunk': 160, 'max_min': 3},
-    'thorough': {'ter_files': 12, 'f14_exh': 8, 'f14': 250, 'f15': 'all', 'files': 64, 'multiconf': 14, 'f3': 'all', 'f5': 300, 'f6': 'all', 'f9': 400, 'f10': 'all', 'f11': 'all', 'opt_every': 1,
+    'thorough': {'multiconf_rich': 3, 'f17': 3000, 'ter_files': 12, 'f14_exh': 8, 'f14': 250, 'f15': 'all', 'files': 64, 'multiconf': 14, 'f3': 'all', 'f5': 300, 'f6': 'all', 'f9': 400, 'f10': 'all', 'f11': 'all', 'opt_every': 1,
                  'chunk': 400, 'max_min': 5, 'full': 260, 'full_partial': 'all'},
 }
 OPTION_SETS = ([], ['--protonate-all'], ['-k'])
@@ -103,6 +103,11 @@ def choose_files(wl, tier, cfg):
         if p not in chosen:
             chosen.append(p)
     multis = sorted(multi, key=lambda p: (p[2], p[0]['id']))[:tier['multiconf']]
+    # plus the MODEL ensembles richest in ionizable groups (the small files
+    # above carry one to three groups each)
+    rich = sorted((p for p in multi if p not in multis and 'MODEL' in p[0]['text']),
+                  key=lambda p: (-len(M.census(p[1], cfg)), p[0]['id']))
+    multis += rich[:tier.get('multiconf_rich', 0)]
     return chosen, multis
 
 
@@ -167,6 +172,8 @@ def build_jobs(base, wl, tier, cfg, log):
         faults = M.enumerate_faults(n, tier, rng, M.residue_bounds(recs))
         faults += M.subset_faults(recs, tier, rng14, M.residue_bounds(recs))
         faults += M.name_faults(recs, tier, rng14)
+        if files[fid]['multiconf']:
+            faults += M.cross_conformation_faults(recs, tier, rng14)
         exhaustive[fid] = {'records': n, 'F1': True, 'F2': True, 'F4': True,
                            'F3': tier['f3'] == 'all', 'F6': tier['f6'] == 'all',
                            'F7': tier['f6'] == 'all',
@@ -277,6 +284,11 @@ def literal_failure(text, stem, delivery, options, expected_pairs, sc, suffix='.
     if not (expect_error or delivery == 'cli'):
         gone = set(p[0] for p in expected_pairs
                    if p[1] not in lines or any(d not in lines for d in (p[2] if len(p) > 2 else [])))
+        # several pairs with one label = one per conformation: a side-chain
+        # group survives while any of them does (same rule as the worker)
+        alive = set(p[0] for p in expected_pairs
+                    if p[1] in lines and all(d in lines for d in (p[2] if len(p) > 2 else [])))
+        gone = set(lab for lab in gone if lab[:2] in ('N+', 'C-') or lab not in alive)
         expected = []
         for p in expected_pairs:
             if p[0] not in gone and p[0] not in expected:
